@@ -18,6 +18,7 @@ mod c10;
 mod c11;
 mod c12;
 mod c13;
+mod c14;
 mod c16;
 mod c17;
 mod c18;
@@ -161,6 +162,10 @@ fn main() {
         "C16" => {
             c16::run(&rep);
             (c16::RULE, false, vec![A_CLI, "the expected line of every instruction comes from the renderer's own bookkeeping, independent of the assembler", "messages are located by a keyword and attributed to the instruction whose hook record precedes them"])
+        }
+        "C14" => {
+            c14::run(&rep);
+            (c14::RULE, false, vec![A_CLI, "the driver's pre-run checks (undefined labels, code label 'start') are replicated in process and the binary is sampled for every mutation class", "constant ranges are the documented ones: signed byte -128..255, signed word -32768..65535, unsigned byte 0..255, unsigned word 0..65535"])
         }
         "C06" => {
             c06::run(&rep);
